@@ -64,8 +64,9 @@ func (lsm *LSM) VerifLayout() VerifLayoutInfo {
 
 // VerifCompact runs exactly one compaction job of the requested kind through the
 // engine's own planner and executor. kind is one of "l0" (L0 -> base level move /
-// L0 -> L0), "ingest-keep", "ingest-drain", "regular". baseLevel > 0 overrides
-// the dynamically computed base level for "l0".
+// L0 -> L0), "l0l0" (L0 -> L0 only: an adjusted score below 1 makes the L0 -> base
+// path decline, as it does for a low-priority L0), "ingest-keep", "ingest-drain",
+// "regular". baseLevel > 0 overrides the dynamically computed base level for "l0".
 func (lsm *LSM) VerifCompact(kind string, level int, baseLevel int) error {
 	lm := lsm.levels
 	t := lm.levelTargets()
@@ -76,6 +77,9 @@ func (lsm *LSM) VerifCompact(kind string, level int, baseLevel int) error {
 	switch kind {
 	case "l0":
 		p.Level = 0
+	case "l0l0":
+		p.Level = 0
+		p.Score, p.Adjusted = 0.5, 0.5
 	case "ingest-keep":
 		p.IngestMode = compact.IngestKeep
 	case "ingest-drain":
